@@ -65,12 +65,36 @@ fn observe(vm: &pest_vm::Vm, rule: &str, input: &str, cut: bool) -> String {
 /// The entry rule r0 is run through `top__ = _{ r0 ~ ""? }`: once the call limit is reached every combinator refuses, so the trailing
 /// optional turns a parse that ran into the limit into an Err, which state() reports as "call limit reached" (an Ok result is not checked
 /// against the limit by state(); without the probe a truncated parse would be taken for a result).
+/// A normal or silent rule has no atomicity of its own (it runs with the one of its caller) and a silent rule has no pair of its own that
+/// would show where its match ends, so such an r0 is also run from callers of the other kinds: `wc__ = ${ r0 }` (atomic context, tokens
+/// kept) for both, and a silent r0 through `wn__ = { r0 }` instead of on its own (non-atomic context, the pair of wn__ carries the span of
+/// r0).  One observation per input: the observations of the entries joined by " || " (for a non-silent r0 the first one is r0 from the top
+/// level, what the Spec oracle is given).
+const SEP: &str = " || ";
+fn has_limit(o: &str) -> bool { o.split(SEP).any(|p| p == "Limit") }
+fn first_obs(o: &str) -> &str { o.split(SEP).next().unwrap_or("") }
 fn vm_all(rules: &[OptimizedRule], inputs: &[String]) -> Vec<String> {
     use pest_meta::optimizer::OptimizedExpr as O;
     let mut rs = rules.to_vec();
-    rs.push(OptimizedRule { name: "top__".into(), ty: RuleType::Silent, expr: O::Seq(Box::new(O::Ident("r0".into())), Box::new(O::Opt(Box::new(O::Str(String::new()))))) });
+    let probe = |n: &str| O::Seq(Box::new(O::Ident(n.into())), Box::new(O::Opt(Box::new(O::Str(String::new())))));
+    let ty0 = rules.iter().find(|r| r.name == "r0").map(|r| r.ty);
+    let mut entries = vec![];
+    // only the first pair of an entry is observed: the skip before the probe's `""?` can produce pairs of a non-silent WHITESPACE / COMMENT
+    if ty0 == Some(RuleType::Silent) {
+        rs.push(OptimizedRule { name: "wn__".into(), ty: RuleType::Normal, expr: O::Ident("r0".into()) });
+        rs.push(OptimizedRule { name: "topn__".into(), ty: RuleType::Silent, expr: probe("wn__") });
+        entries.push("topn__");
+    } else {
+        rs.push(OptimizedRule { name: "top__".into(), ty: RuleType::Silent, expr: probe("r0") });
+        entries.push("top__");
+    }
+    if ty0 == Some(RuleType::Silent) || ty0 == Some(RuleType::Normal) {
+        rs.push(OptimizedRule { name: "wc__".into(), ty: RuleType::CompoundAtomic, expr: O::Ident("r0".into()) });
+        rs.push(OptimizedRule { name: "topc__".into(), ty: RuleType::Silent, expr: probe("wc__") });
+        entries.push("topc__");
+    }
     let vm = pest_vm::Vm::new(rs);
-    inputs.iter().map(|i| observe(&vm, "top__", i, true)).collect()
+    inputs.iter().map(|i| entries.iter().map(|e| observe(&vm, e, i, true)).collect::<Vec<_>>().join(SEP)).collect()
 }
 
 struct Stats { evals: u64, fired: [u64; 9], seen: HashSet<String>, distinct_fired: u64, panics: u64, vm_runs: u64, vm_diff_known: u64, contracts: u64, inputs: u64 }
@@ -206,7 +230,13 @@ fn shaped(r: &mut Rng, kind: u32, x: bool, wild: bool, huge_ok: bool) -> Vec<GRu
                    5 => cho(seq(h1, t.clone()), seq(h2, t)), 6 => cho(seq(h1, t.clone()), cho(seq(h2, t), d)), _ => cho(seq(a, h1), seq(a2, h2)) };
                ctx(r, e, 0, n, &c) }
         5 => { let a = small(r, 0, n, &c); let a2 = if r.chance(4, 5) { a.clone() } else { small(r, 0, n, &c) }; let b = small(r, 0, n, &c);
-               let e = seq(GE::Rep(bx(seq(a, b))), a2); ctx(r, e, 0, n, &c) }
+               // the separated-list shape on its own, or followed by a tail (what the rules of real grammars look like: a trailing separator,
+               // a terminator that overlaps the separator, the end of input), nested to the left (as written) or to the right (as rotated)
+               let tail = match r.below(10) { 0 => Some(GE::Opt(bx(b.clone()))), 1 => Some(seq(GE::Opt(bx(b.clone())), id("EOI"))), 2 => Some(id("EOI")), 3 => Some(small(r, 0, n, &c)),
+                   4 => Some(cho(b.clone(), small(r, 0, n, &c))), _ => None };
+               let rep = GE::Rep(bx(seq(a, b)));
+               let e = match tail { None => seq(rep, a2), Some(t) => if r.chance(2, 3) { seq(seq(rep, a2), t) } else { seq(rep, seq(a2, t)) } };
+               ctx(r, e, 0, n, &c) }
         _ => { for i in 1..n { if r.chance(2, 3) { rules[i].e = stack_expr(r, 2, if wild { 0 } else { i }, n, x); } }
                if wild && r.chance(1, 2) { rules[2].e = cho(id("r1"), rules[2].e.clone()); }
                let body = stack_expr(r, 3, 0, n, x);
@@ -214,7 +244,9 @@ fn shaped(r: &mut Rng, kind: u32, x: bool, wild: bool, huge_ok: bool) -> Vec<GRu
                pre }
     };
     rules[0].e = e0;
-    if kind != 6 && r.chance(1, 3) { rules.push(GRule { name: "WHITESPACE".into(), ty: Ty::Silent, e: s(" ") }); }
+    // implicit skipping is what tells the rule types apart: WHITESPACE in a third of the rule sets, COMMENT = _{ "y" ~ " " } in some more
+    if kind != 6 { match r.below(9) { 0 | 1 | 2 => rules.push(GRule { name: "WHITESPACE".into(), ty: Ty::Silent, e: s(" ") }),
+        3 => rules.push(GRule { name: "COMMENT".into(), ty: Ty::Silent, e: seq(s("y"), s(" ")) }), _ => {} } }
     rules
 }
 
@@ -334,16 +366,46 @@ fn inputs_for(g: &[GRule], maxlen: usize, depth: Depth, extra: &[String]) -> (Ve
     derived(&toks, ntok, nbytes, cap, &mut out, &mut seen);
     (out, nbase)
 }
-fn compare(w: &mut Out, st: &mut Stats, class: &str, pass: u32, x: bool, g: &[Rule], inputs: &[String], before: &[String], after: &[String]) -> bool {
-    let mut shown = 0;
+/// The rewrite of the known finding C05-lister and nothing else (coq/Opt/List.v `list_fn`, bottom-up): `(l1 ~ l2)* ~ r` with l1 == r
+/// becomes `l1 ~ (l2 ~ r)*`.  It decides which before/after differences of the list pass are the known finding: a rule set on which this
+/// rewrite does not fire is outside the class whatever the real pass does to it.  (The runner evaluates the extracted Coq predicate on
+/// every CONTRACT line of class `lister` again and takes a line out of the class when the predicate does not hold.)
+fn known_list_expr(e: &GE) -> GE {
+    let cs: Vec<GE> = children(e).into_iter().map(known_list_expr).collect();
+    let e = with_children(e, cs);
+    if let GE::Seq(l, r) = &e { if let GE::Rep(b) = &**l { if let GE::Seq(l1, l2) = &**b { if **l1 == **r {
+        return seq((**l1).clone(), GE::Rep(bx(seq((**l2).clone(), (**r).clone()))));
+    } } } }
+    e
+}
+fn known_list(rules: &[Rule]) -> Vec<Rule> {
+    let g: Vec<GRule> = from_rules(rules).into_iter().map(|r| GRule { name: r.name, ty: r.ty, e: known_list_expr(&r.e) }).collect();
+    to_rules(&g)
+}
+/// How the differences between `before` and `after` a list pass (or the pipeline that contains it) relate to the known finding:
+///   Outside      the known rewrite does not fire on the rules: every difference counts
+///   Known        the real pass did exactly the known rewrite: every difference is the known finding
+///   Mixed(obs)   the known rewrite fires and the real pass did something else (as well): `obs` = the real VM on the rules after the known
+///                rewrite alone; a difference on an input on which the known rewrite alone changes nothing is not the known finding
+enum Lister { Outside, Known, Mixed(Vec<String>) }
+fn lister_case(src: &[Rule], real: &[Rule], inputs: &[String]) -> Lister {
+    let k = known_list(src);
+    if k.as_slice() == src { return Lister::Outside; }
+    if k.as_slice() == real { return Lister::Known; }
+    match to_opt(&k, true) { Some(o) => Lister::Mixed(vm_all(&o, inputs)), None => Lister::Known }
+}
+fn compare(w: &mut Out, st: &mut Stats, lc: &Lister, pass: u32, x: bool, g: &[Rule], inputs: &[String], before: &[String], after: &[String]) -> bool {
+    let (mut shown_known, mut shown_other) = (0, 0);
     for (k, input) in inputs.iter().enumerate() {
         st.vm_runs += 1;
-        if before[k] == "Limit" || after[k] == "Limit" || before[k] == after[k] { continue; }
-        if class == "lister" { st.vm_diff_known += 1; } else { st.contracts += 1; }
-        shown += 1;
-        if shown <= 2 { writeln!(w, "CONTRACT\t{}\t{}\t{}\t{}\t{}\t{}\t{}", class, pass, x as u8, sexp_grammar(&from_rules(g)), hex(input), before[k], after[k]).unwrap(); }
+        if has_limit(&before[k]) || has_limit(&after[k]) || before[k] == after[k] { continue; }
+        let class = match lc { Lister::Outside => "other", Lister::Known => "lister",
+            Lister::Mixed(ka) => if !has_limit(&ka[k]) && ka[k] == before[k] { "other+" } else { "lister" } };
+        let shown = if class == "lister" { st.vm_diff_known += 1; &mut shown_known } else { st.contracts += 1; &mut shown_other };
+        *shown += 1;
+        if *shown <= 2 { writeln!(w, "CONTRACT\t{}\t{}\t{}\t{}\t{}\t{}\t{}", class, pass, x as u8, sexp_grammar(&from_rules(g)), hex(input), before[k], after[k]).unwrap(); }
     }
-    shown > 0 && class != "lister"
+    shown_other > 0
 }
 /// returns true when the real VM told the rules before and after some pass apart (outside the lister class)
 fn semantic(w: &mut Out, st: &mut Stats, g: &[GRule], x: bool, maxlen: usize, stream: &str, gid: u64, emit_v: bool, depth: Depth, extra: &[String]) -> bool {
@@ -354,33 +416,43 @@ fn semantic(w: &mut Out, st: &mut Stats, g: &[GRule], x: bool, maxlen: usize, st
     let before_opt = match to_opt(&unrolled, true) { Some(o) => o, None => return false };
     // a rule set that runs into the call limit on most inputs (a repetition that does not progress) says nothing on the additional inputs either
     let mut before = vm_all(&before_opt, &inputs[..nbase]);
-    if before.iter().filter(|o| *o == "Limit").count() * 2 > nbase { inputs.truncate(nbase); } else { before.extend(vm_all(&before_opt, &inputs[nbase..])); }
+    if before.iter().filter(|o| has_limit(o)).count() * 2 > nbase { inputs.truncate(nbase); } else { before.extend(vm_all(&before_opt, &inputs[nbase..])); }
     st.inputs += inputs.len() as u64;
     if emit_v {
-        writeln!(w, "G\t{}\t{}\t{}", gid, x as u8, sexp_grammar(g)).unwrap();
-        for (k, i) in inputs.iter().take(nbase).enumerate() { writeln!(w, "V\t{}\t{}\t{}\t{}", gid, stream, hex(i), before[k]).unwrap(); }
-        st.evals += nbase as u64;
+        // the Spec oracle is given r0 from the top level; a silent r0 shows neither its span nor (next to a non-silent WHITESPACE) which pairs
+        // are its own, so the Spec oracle gets the same rule set with a normal r0
+        let (gv, obs): (Vec<GRule>, Option<Vec<String>>) = if g[0].ty != Ty::Silent { (g.to_vec(), Some(before[..nbase].to_vec())) } else {
+            let mut gn = g.to_vec(); gn[0].ty = Ty::Normal;
+            let o = apply(&to_rules(&gn), 2).and_then(|u| to_opt(&u, true)).map(|o| vm_all(&o, &inputs[..nbase]));
+            (gn, o) };
+        if let Some(obs) = obs {
+            writeln!(w, "G\t{}\t{}\t{}", gid, x as u8, sexp_grammar(&gv)).unwrap();
+            for (k, i) in inputs.iter().take(nbase).enumerate() { writeln!(w, "V\t{}\t{}\t{}\t{}", gid, stream, hex(i), first_obs(&obs[k])).unwrap(); }
+            st.evals += nbase as u64;
+        }
     }
     for pass in [0u32, 1, 3, 4, 5] {
         let (src, src_is_base) = if pass < 2 { (&base, true) } else { (&unrolled, false) };
         let a = match apply(src, pass) { Some(a) => a, None => continue };
         if &a == src { continue; }
+        let lc = if pass == 5 { lister_case(src, &a, &inputs) } else { Lister::Outside };
         let au = if src_is_base { match apply(&a, 2) { Some(u) => u, None => continue } } else { a };
         let ao = match to_opt(&au, true) { Some(o) => o, None => continue };
         st.fired[pass as usize] += 1;
         if st.seen.insert(format!("{}|{}", pass, sexp_grammar(&from_rules(src)))) { st.distinct_fired += 1; }
         let after = vm_all(&ao, &inputs);
-        found |= compare(w, st, if pass == 5 { "lister" } else { "other" }, pass, x, src, &inputs, &before, &after);
+        found |= compare(w, st, &lc, pass, x, src, &inputs, &before, &after);
     }
     if let Some(po) = whole(&base) {
         if po != before_opt {
+            // the rules as the list pass of the pipeline sees them (the five passes before it), and what the real list pass makes of them
             let mut chain = Some(base.clone());
             for pass in 0..5 { chain = chain.and_then(|c| apply(&c, pass)); }
-            let lister = match &chain { Some(c) => apply(c, 5).map(|l| &l != c).unwrap_or(true), None => true };
+            let lc = match &chain { Some(c) => match apply(c, 5) { Some(l) => lister_case(c, &l, &inputs), None => Lister::Known }, None => Lister::Known };
             st.fired[8] += 1;
             if st.seen.insert(format!("8|{}", sexp_grammar(g))) { st.distinct_fired += 1; }
             let after = vm_all(&po, &inputs);
-            found |= compare(w, st, if lister { "lister" } else { "other" }, 8, x, &base, &inputs, &before, &after);
+            found |= compare(w, st, &lc, 8, x, &base, &inputs, &before, &after);
         }
     }
     found
@@ -482,26 +554,47 @@ fn mutate(g0: &[GRule], r: &mut Rng) -> Vec<GRule> {
                    if !g.iter().any(|x| x.name == name) { g.push(GRule { name: name.into(), ty: Ty::Silent, e }); } }
         }
     }
-    if g[0].ty == Ty::Silent { g[0].ty = Ty::Normal; }
     g
 }
 fn sem_grammar(rng: &mut Rng, k: u64, x: bool) -> (Vec<GRule>, u32) {
     let kind = (k % 8) as u32;
     let g = if kind == 7 { let c = GenCfg { stack: rng.chance(1, 2), extras: x, counts: rng.chance(1, 2), builtins: rng.chance(1, 4) }; gen_grammar(rng, &c) }
             else { shaped(rng, kind, x, false, false) };
-    let mut g = g; if g[0].ty == Ty::Silent { g[0].ty = Ty::Normal; }
     (g, kind)
+}
+/// the rule set with implicit skipping switched on in the ways it is not yet: + WHITESPACE = _{ " " }, + COMMENT = _{ "y" ~ " " }, + both
+/// (a rewrite that is sound for the sequence as written can be unsound for the sequence with the skips between its elements)
+fn with_trivia(g: &[GRule]) -> Vec<Vec<GRule>> {
+    let has = |n: &str| g.iter().any(|r| r.name == n);
+    let ws = GRule { name: "WHITESPACE".into(), ty: Ty::Silent, e: s(" ") };
+    let cm = GRule { name: "COMMENT".into(), ty: Ty::Silent, e: seq(s("y"), s(" ")) };
+    let mut out = vec![];
+    if !has("WHITESPACE") { let mut v = g.to_vec(); v.push(ws.clone()); out.push(v); }
+    if !has("COMMENT") { let mut v = g.to_vec(); v.push(cm.clone()); out.push(v); }
+    if !has("WHITESPACE") && !has("COMMENT") { let mut v = g.to_vec(); v.push(ws); v.push(cm); out.push(v); }
+    out
 }
 fn search(w: &mut Out, st: &mut Stats, file: &str, seed: u64, nvar: u64, nrand: u64, x: bool, maxlen: usize) {
     let mut rng = Rng::new(seed);
     let text = std::fs::read_to_string(file).unwrap_or_default();
-    let (mut given, mut skipped, mut variants, mut hits_given, mut hits_variant, mut hits_random) = (0u64, 0u64, 0u64, 0u64, 0u64, 0u64);
+    const ENOUGH: u64 = 4;
+    let mut not_tried = 0u64;
+    let (mut given, mut skipped, mut variants, mut trivia, mut hits_given, mut hits_trivia, mut hits_variant, mut hits_random) = (0u64, 0u64, 0u64, 0u64, 0u64, 0u64, 0u64, 0u64);
     for line in text.lines().filter(|l| !l.trim().is_empty()) {
+        // the rule set as it is (the type of the entry rule included: it decides what the passes do); every kind of entry rule is run
+        // from the callers vm_all gives it
+        if hits_given + hits_trivia + hits_variant >= ENOUGH { not_tried += 1; continue; }     // failing inputs on several rule sets: that is what the search is for
         let g = match catch(|| parse_grammar(line.trim())) { Ok(g) => g, Err(_) => { skipped += 1; continue; } };
-        let mut g = g; if !g.is_empty() && g[0].ty == Ty::Silent { g[0].ty = Ty::Normal; }
         if !runnable(&g, x) { skipped += 1; continue; }
         given += 1;
         if semantic(w, st, &g, x, maxlen, "search", 0, false, Depth::Deep, &[]) { hits_given += 1; continue; }
+        let mut hit = false;
+        for v in with_trivia(&g) {
+            if !runnable(&v, x) { continue; }
+            trivia += 1;
+            if semantic(w, st, &v, x, maxlen, "search", 0, false, Depth::Mid, &[]) { hits_trivia += 1; hit = true; break; }
+        }
+        if hit { continue; }
         for _ in 0..nvar {
             let v = mutate(&g, &mut rng);
             if v == g || !runnable(&v, x) { continue; }
@@ -509,11 +602,15 @@ fn search(w: &mut Out, st: &mut Stats, file: &str, seed: u64, nvar: u64, nrand: 
             if semantic(w, st, &v, x, maxlen, "search", 0, false, Depth::Mid, &[]) { hits_variant += 1; break; }
         }
     }
+    let mut random = 0u64;
     for k in 0..nrand {
+        if hits_given + hits_trivia + hits_variant + hits_random >= ENOUGH { break; }
         let (g, _) = sem_grammar(&mut rng, k, x);
+        random += 1;
         if semantic(w, st, &g, x, maxlen, "search", 0, false, Depth::Mid, &[]) { hits_random += 1; }
     }
-    writeln!(w, "#SEARCH\tgiven={}\tskipped={}\tvariants={}\trandom={}\thits_given={}\thits_variant={}\thits_random={}\tinputs={}", given, skipped, variants, nrand, hits_given, hits_variant, hits_random, st.inputs).unwrap();
+    writeln!(w, "#SEARCH\tgiven={}\tskipped={}\tnot_tried={}\ttrivia_variants={}\tvariants={}\trandom={}\thits_given={}\thits_trivia={}\thits_variant={}\thits_random={}\tinputs={}",
+        given, skipped, not_tried, trivia, variants, random, hits_given, hits_trivia, hits_variant, hits_random, st.inputs).unwrap();
 }
 
 // ------------------------------------------------------------------------------------------------
@@ -641,7 +738,7 @@ fn main() {
         "witness" => witnesses(&mut w, x),
         "probe" => probe(&mut w, x),
         "one" => { let g = parse_grammar(&arg(2)); structural(&mut w, &mut st, &g, x); }
-        "semone" => { let mut g = parse_grammar(&arg(2)); if g[0].ty == Ty::Silent { g[0].ty = Ty::Normal; } let extra: Vec<String> = if arg(4).is_empty() { vec![] } else { vec![unhex_s(&arg(4))] };
+        "semone" => { let g = parse_grammar(&arg(2)); let extra: Vec<String> = if arg(4).is_empty() { vec![] } else { vec![unhex_s(&arg(4))] };
                       semantic(&mut w, &mut st, &g, x, arg_u64(3, 5) as usize, "replay", 0, true, Depth::Deep, &extra); }
         _ => { eprintln!("usage: c05 struct COUNT SEED [huge] | sem COUNT SEED MAXLEN | search FILE SEED VARIANTS RANDOM MAXLEN | witness | probe | one GRAMMAR | semone GRAMMAR MAXLEN [INPUT-HEX]"); std::process::exit(2); }
     }
